@@ -131,3 +131,8 @@ CASES += [
     dict(id='c12-iter-ctor-always-forward', prop='C12', file=I, expect='R6',
          old="      if ((static_cast< size_t>( mCurrPos) >= mpDynBitset->size())\n          || !mpDynBitset->test( mCurrPos))\n         forward();", new="      forward();"),
 ]
+
+CASES += [
+    dict(id='c12-and-clear-loop-never-runs', prop='C12', file=D, expect='R5',
+         old="      for (size_t idx = other.mData.size(); idx < mData.size(); ++idx)\n      {\n         mData[ idx] = false;", new="      for (size_t idx = other.mData.size(); idx < other.mData.size(); ++idx)\n      {\n         mData[ idx] = false;"),
+]
